@@ -516,6 +516,7 @@ def partialChecks (x : Ctx) (st : State) (i : Input) (sh : Share) (m : PMsg) : L
     (match partialTypeMatchesRole m.ptype i.role with
      | .error e => .error e
      | .ok b => rejectIf (!b) .PartialSignatureTypeRoleMismatch),
+    rejectIf (earlyMessage x.cfg m.slot i.now) .EarlyMessage,
     validatePartialMessages sh m,
     signerBehaviorPartial x.cfg i.role m (st (i.vid, i.role, m.signer)),
     signatureFormat m.sigLen m.sigZero,
